@@ -12,7 +12,11 @@ if src.count(old) < 1:
 f.write_text(src.replace(old, new, 1))
 try:
     for p in props:
+        ev = Path('/verif/evidence') / f'{p}.json'
+        keep = ev.read_text() if ev.exists() else None
         r = subprocess.run(['./check', p], cwd='/verif', capture_output=True, text=True)
+        if keep is not None:
+            ev.write_text(keep)
         lines = [ln[:260] for ln in r.stdout.splitlines() if ln.startswith(('VIOLATION', '['))]
         print(f'{p}: rc={r.returncode}', *lines[:4], sep='\n   ')
         if r.returncode == 2:
